@@ -7,6 +7,7 @@ import (
 	"fmt"
 	"os"
 	"path/filepath"
+	"runtime"
 	"runtime/pprof"
 	"time"
 
@@ -15,6 +16,36 @@ import (
 	"verif/par"
 	"verif/report"
 )
+
+// memGuard watches the heap of this process.  Code under test that has been changed may make a harness hold on to
+// far more than it ever does on the unchanged tree; the sandbox has no memory limit, so the process limits itself:
+// beyond soft the time budget is declared used up (searches stop and report exhaustive:false), beyond hard the
+// process gives up as a machinery error (exit 2, no verdict).
+func memGuard(soft, hard uint64, worker bool) {
+	go func() {
+		dumped := false
+		for {
+			time.Sleep(2 * time.Second)
+			var ms runtime.MemStats
+			runtime.ReadMemStats(&ms)
+			if ms.HeapAlloc > soft && !dumped {
+				dumped = true
+				if pf := os.Getenv("VERIF_HEAPPROF"); pf != "" {
+					if f, err := os.Create(pf); err == nil {
+						pprof.WriteHeapProfile(f)
+						f.Close()
+					}
+				}
+				fmt.Fprintf(os.Stderr, "vcheck: heap %d MB exceeds %d MB: stopping the searches\n", ms.HeapAlloc>>20, soft>>20)
+				checks.Deadline = time.Now().Add(-time.Second)
+			}
+			if ms.HeapAlloc > hard {
+				fmt.Fprintf(os.Stderr, "vcheck: heap %d MB exceeds %d MB: giving up (machinery error, no verdict)\n", ms.HeapAlloc>>20, hard>>20)
+				os.Exit(2)
+			}
+		}
+	}()
+}
 
 func main() {
 	if len(os.Args) < 2 {
@@ -52,6 +83,7 @@ func main() {
 			budget = time.Duration(n) * time.Second
 		}
 		checks.Deadline = time.Now().Add(budget)
+		memGuard(6<<30, 16<<30, false)
 		r := report.New(id, tier, checks.Root)
 		fn(r, tier)
 		os.Exit(r.Finish())
